@@ -270,49 +270,213 @@ def id_reads():
 
 
 # ---------------------------------------------------------------- role writes
-def stores(fns, var):
-    w = set()
-    for fn in fns:
+MUTATORS = {"update", "pop", "clear", "setdefault", "append", "extend", "remove", "insert", "popitem", "sort",
+            "reverse", "add", "discard", "__setitem__", "__delitem__"}
+# methods / properties of a psbt or of one of its maps that only read
+READ_MEMBERS = {"assert_valid", "assert_signable", "serialize", "to_dict", "b64encode", "tx", "lock_time", "unique_id",
+                "prev_out", "sig_hash", "inputs_modifiable", "outputs_modifiable", "has_sig_hash_single",
+                "inputs", "outputs", "version"}
+READ_VALUE_METHODS = {"items", "keys", "values", "get", "hex", "copy", "serialize", "assert_valid", "to_bytes", "count",
+                      "index", "startswith", "endswith"}
+# callables that only read what they are given (builtins, and btclib readers outside psbt.py)
+PURE = {"deepcopy", "copy", "len", "sorted", "list", "dict", "tuple", "set", "frozenset", "bool", "bytes", "int", "isinstance", "enumerate",
+        "zip", "any", "all", "min", "max", "sum", "iter", "next", "repr", "str", "range", "cast", "fields", "getattr",
+        "is_p2tr", "is_p2wpkh", "is_p2wsh", "is_p2sh", "is_p2pkh", "type_and_payload", "sha256", "hash160", "hash256",
+        "ripemd160", "tagged_hash", "PsbtIn", "PsbtOut", "Witness", "BTClibValueError", "BTClibTypeError",
+        "ScriptPubKey", "parse", "serialize", "estimated_input_sizes", "check_output_pubkey", "output_pubkey",
+        "sign_ecdsa", "sign_schnorr", "sign_schnorr_script_path", "solver", "verify_", "assert_valid_hash_type",
+        "point_from_octets", "bytes_from_octets", "op_int", "op_pushdata", "Sig"}
+SECTION_OF_LIST = {"inputs": "in", "outputs": "out"}
+
+
+class _Stores:
+    """attributes of a psbt (section `glob`) / of its input maps (`in`) / output maps (`out`) that a role may store
+    to, following local aliases (`x = psbt.inputs[i]`, `for x in psbt.inputs`, `p = deepcopy(psbt)`) and calls to
+    other functions of psbt.py.  Anything that could write and is not understood RAISES (a broken tie)."""
+
+    def __init__(self):
+        self.w = {"glob": set(), "in": set(), "out": set()}
+        self.done = set()
+        e = MI.PsbtIn(check_validity=False)
+        o = MO.PsbtOut(check_validity=False)
+        g = M.Psbt(2, [], [], 2, {}, check_validity=False)
+        self.immutable = {
+            "in": {f.name for f in dataclasses.fields(e) if isinstance(getattr(e, f.name), (bytes, int))
+                   or f.name in ("sig_hash_type", "output_index", "sequence", "required_time_lock_time",
+                                 "required_height_lock_time")},
+            "out": {f.name for f in dataclasses.fields(o) if isinstance(getattr(o, f.name), (bytes, int))
+                    or f.name in ("amount", "sp_v0_label")},
+            "glob": {f.name for f in dataclasses.fields(g) if isinstance(getattr(g, f.name), (bytes, int))
+                     or f.name in ("fallback_lock_time", "tx_modifiable", "signed_message")}}
+
+    def classify(self, e, env):
+        if isinstance(e, ast.Name):
+            return env.get(e.id)
+        if isinstance(e, ast.Call) and getattr(e.func, "id", "") in ("deepcopy", "copy") and e.args:
+            return self.classify(e.args[0], env)
+        if isinstance(e, ast.Subscript) and isinstance(e.value, ast.Attribute) and e.value.attr in SECTION_OF_LIST \
+                and self.classify(e.value.value, env) == "glob":
+            return SECTION_OF_LIST[e.value.attr]
+        return None
+
+    def bind_loop(self, target, it, env):
+        def elem(x):   # section of the elements of an iterable expression
+            if isinstance(x, ast.Attribute) and x.attr in SECTION_OF_LIST and self.classify(x.value, env) == "glob":
+                return SECTION_OF_LIST[x.attr]
+            return None
+        if isinstance(it, ast.Call) and getattr(it.func, "id", "") == "enumerate" and isinstance(target, ast.Tuple):
+            self.bind_loop(target.elts[1], it.args[0], env)
+        elif isinstance(it, ast.Call) and getattr(it.func, "id", "") == "zip" and isinstance(target, ast.Tuple):
+            for t, a in zip(target.elts, it.args):
+                self.bind_loop(t, a, env)
+        elif isinstance(target, ast.Name):
+            sec = elem(it)
+            if sec:
+                env[target.id] = sec
+            else:
+                env.pop(target.id, None)
+
+    def store_target(self, t, env, where):
+        while isinstance(t, ast.Subscript):
+            t = t.value
+        if isinstance(t, (ast.Tuple, ast.List)):
+            for x in t.elts:
+                self.store_target(x, env, where)
+            return
+        if isinstance(t, ast.Starred):
+            return self.store_target(t.value, env, where)
+        if isinstance(t, ast.Name):
+            return
+        if isinstance(t, ast.Attribute):
+            sec = self.classify(t.value, env)
+            if sec:
+                self.w[sec].add(t.attr)
+                return
+            # x.y.z = … / x.y[k].z = …: a store THROUGH an attribute of a tracked object
+            b = t.value
+            while isinstance(b, (ast.Subscript, ast.Attribute)):
+                if isinstance(b, ast.Attribute) and self.classify(b.value, env):
+                    self.w[self.classify(b.value, env)].add(b.attr)
+                    return
+                b = b.value
+            if isinstance(b, ast.Name) and b.id in self.untracked_ok:
+                return
+            raise ValueError(f"{where}: store to `{ast.unparse(t)}` on an object the walker does not track")
+        raise ValueError(f"{where}: unrecognised store target `{ast.unparse(t)}`")
+
+    def tracked_arg(self, a, env):
+        """(section, attr or None) when the argument hands a tracked object, or a mutable part of one, to the callee"""
+        sec = self.classify(a, env)
+        if sec:
+            return sec, None
+        if isinstance(a, ast.Attribute) and self.classify(a.value, env):
+            s2 = self.classify(a.value, env)
+            if a.attr in self.immutable[s2] or a.attr in READ_MEMBERS:
+                return None
+            return s2, a.attr
+        return None
+
+    def run(self, fn, param_secs, untracked_ok=()):
+        key = (fn.__qualname__, tuple(sorted(param_secs.items())))
+        if key in self.done:
+            return
+        self.done.add(key)
         f = _fdef(fn)
+        where = fn.__qualname__
+        self.untracked_ok = set(untracked_ok) | getattr(self, "untracked_ok", set())
+        env = {a.arg: param_secs[a.arg] for a in f.args.args + f.args.kwonlyargs if a.arg in param_secs}
+        for st in ast.walk(f):
+            if isinstance(st, ast.Assign) and len(st.targets) == 1 and isinstance(st.targets[0], ast.Name):
+                sec = self.classify(st.value, env)
+                if sec:
+                    env[st.targets[0].id] = sec
+            if isinstance(st, (ast.For, ast.comprehension)):
+                self.bind_loop(st.target, st.iter, env)
         for n in ast.walk(f):
-            tgts = []
             if isinstance(n, ast.Assign):
-                tgts = n.targets
+                for t in n.targets:
+                    self.store_target(t, env, where)
             elif isinstance(n, (ast.AugAssign, ast.AnnAssign)):
-                tgts = [n.target]
-            for t in tgts:
-                while isinstance(t, ast.Subscript):
-                    t = t.value
-                if isinstance(t, ast.Attribute) and isinstance(t.value, ast.Name) and t.value.id in var:
-                    w.add(t.attr)
-            if isinstance(n, ast.Call) and isinstance(n.func, ast.Attribute) and \
-                    n.func.attr in ("update", "pop", "clear", "setdefault", "append", "extend") and \
-                    isinstance(n.func.value, ast.Attribute) and isinstance(n.func.value.value, ast.Name) \
-                    and n.func.value.value.id in var:
-                w.add(n.func.value.attr)
-            if isinstance(n, ast.Call) and getattr(n.func, "id", "") == "setattr":
-                raise ValueError(f"{fn.__name__}: setattr on a computed name")
-    return w
+                self.store_target(n.target, env, where)
+            elif isinstance(n, ast.Delete):
+                for t in n.targets:
+                    self.store_target(t, env, where)
+            elif isinstance(n, ast.Call):
+                self.call(n, env, where)
+
+    def call(self, c, env, where):
+        fname = c.func.id if isinstance(c.func, ast.Name) else c.func.attr if isinstance(c.func, ast.Attribute) else None
+        args = list(c.args) + [k.value for k in c.keywords]
+        if fname == "setattr" and c.args and self.classify(c.args[0], env):
+            if isinstance(c.args[1], ast.Constant):
+                self.w[self.classify(c.args[0], env)].add(c.args[1].value)
+                return
+            raise ValueError(f"{where}: setattr on a computed name")
+        if isinstance(c.func, ast.Attribute):
+            recv = c.func.value
+            sec = self.classify(recv, env)
+            if sec:                                   # psbt.method(...)
+                if c.func.attr not in READ_MEMBERS:
+                    raise ValueError(f"{where}: `{ast.unparse(c.func)}` is not a known read-only member")
+            elif isinstance(recv, ast.Attribute) and self.classify(recv.value, env):   # psbt_in.attr.method(...)
+                s2 = self.classify(recv.value, env)
+                if c.func.attr in MUTATORS:
+                    self.w[s2].add(recv.attr)
+                elif c.func.attr not in READ_VALUE_METHODS:
+                    raise ValueError(f"{where}: `{ast.unparse(c.func)}` may write to {recv.attr}")
+        handed = [(a, self.tracked_arg(a, env)) for a in args]
+        handed = [(a, t) for a, t in handed if t]
+        if not handed:
+            return
+        target = getattr(M, fname, None) if isinstance(c.func, ast.Name) else None
+        if target is not None and inspect.isfunction(target) and target.__module__ == M.__name__:
+            if target is M._clear_finalized:
+                return                                   # accounted for by role_writes (fields minus _FINALIZED_KEEPS)
+            td = _fdef(target)
+            names = [a.arg for a in td.args.args]
+            secs = {}
+            for pos, a in enumerate(c.args):
+                t = self.tracked_arg(a, env)
+                if t and pos < len(names):
+                    if t[1] is not None:
+                        raise ValueError(f"{where}: hands `{ast.unparse(a)}` (mutable) to {fname}")
+                    secs[names[pos]] = t[0]
+            for k in c.keywords:
+                t = self.tracked_arg(k.value, env)
+                if t:
+                    if t[1] is not None:
+                        raise ValueError(f"{where}: hands `{ast.unparse(k.value)}` (mutable) to {fname}")
+                    secs[k.arg] = t[0]
+            self.run(target, secs)
+            return
+        if fname in PURE:
+            return
+        raise ValueError(f"{where}: hands `{ast.unparse(handed[0][0])}` to `{fname}`, which the walker cannot see into")
+
+
+def stores(fns, roots, untracked_ok=()):
+    s = _Stores()
+    for fn in fns:
+        s.run(fn, roots, untracked_ok)
+    return s.w
 
 
 def role_writes():
-    sign_in = stores([M.sign, M._sign_ecdsa_input, M._sign_taproot_key_path, M._sign_taproot_script_path],
-                     {"psbt_in"})
-    sign_glob = stores([M.sign, M._sign_ecdsa_input, M._sign_taproot_key_path, M._sign_taproot_script_path],
-                       {"psbt"})
+    roots = {"psbt": "glob", "self": "glob", "psbt_in": "in", "psbt_out": "out"}
+    sg = stores([M.sign], roots)
     # finalize: _clear_finalized resets every dataclass field not in _FINALIZED_KEEPS
     cf = ast.unparse(_fdef(M._clear_finalized))
     if "if field.name not in _FINALIZED_KEEPS" not in cf or "for field in fields(psbt_in)" not in cf:
         raise ValueError("_clear_finalized: not the `fields(psbt_in)` minus _FINALIZED_KEEPS loop")
-    fin = {f.name for f in dataclasses.fields(MI.PsbtIn)} - set(M._FINALIZED_KEEPS)
-    fin |= stores([M.finalize], {"psbt_in"})
-    fin_glob = stores([M.finalize], {"psbt"})
-    v0_in = stores([M.Psbt.to_v0], {"psbt_in"})
-    v0_glob = stores([M.Psbt.to_v0], {"psbt"})
-    v2_in = stores([M.Psbt.to_v2], {"psbt_in"})
-    v2_glob = stores([M.Psbt.to_v2], {"psbt"})
-    return dict(signIn=sign_in, signGlob=sign_glob, finIn=fin, finGlob=fin_glob,
-                v0In=v0_in, v0Glob=v0_glob, v2In=v2_in, v2Glob=v2_glob)
+    fn = stores([M.finalize], roots)
+    fin = ({f.name for f in dataclasses.fields(MI.PsbtIn)} - set(M._FINALIZED_KEEPS)) | fn["in"]
+    v0 = stores([M.Psbt.to_v0], roots)
+    v2 = stores([M.Psbt.to_v2], roots)
+    for what, w in (("sign", sg), ("finalize", fn), ("to_v0", v0), ("to_v2", v2)):
+        if w["out"]:
+            raise ValueError(f"{what} stores to an output map: {sorted(w['out'])}")
+    return dict(signIn=sg["in"], signGlob=sg["glob"], finIn=fin, finGlob=fn["glob"],
+                v0In=v0["in"], v0Glob=v0["glob"], v2In=v2["in"], v2Glob=v2["glob"])
 
 
 # ---------------------------------------------------------------- rendering
